@@ -122,6 +122,9 @@ void UnicodeRangeFactory::buildRanges(RangeTokenMap *rangeTokMap) {
         tok = RangeToken::complementRanges(ranges[k], tokFactory);
         // build the internal map.
         tok->createMap();
+        // ... of the category token as well: it is shared by all threads
+        // and must be complete before it is published
+        ranges[k]->createMap();
         rangeTokMap->setRangeToken(uniCategNames[k], ranges[k]);
         rangeTokMap->setRangeToken(uniCategNames[k], tok , true);
     }
